@@ -15,6 +15,7 @@ import (
 	"github.com/styrainc/regal/pkg/fixer/fixes"
 	"github.com/styrainc/regal/pkg/linter"
 	"github.com/styrainc/regal/pkg/report"
+	"github.com/styrainc/regal/pkg/rules"
 )
 
 type OnConflictOperation string
@@ -249,8 +250,9 @@ func (f *Fixer) applyLinterFixes(
 			}
 
 			fixCandidate := fixes.FixCandidate{
-				Filename: file,
-				Contents: fc,
+				Filename:    file,
+				Contents:    fc,
+				RegoVersion: rules.RegoVersionFromVersionsMap(versionsMap, file, ast.RegoUndefined),
 			}
 
 			config, err := l.GetConfig()
